@@ -170,3 +170,76 @@ def shared_generators(prog):
                     if base in local and base not in rebound:
                         out.append((fi, n, local[base]))
     return out
+
+
+MUTATING_METHODS = {"append", "extend", "insert", "pop", "remove", "clear", "update", "setdefault", "popitem", "add", "discard", "sort", "reverse", "difference_update", "intersection_update"}
+
+
+def _mutable_literal(v):
+    if isinstance(v, (ast.Dict, ast.List, ast.Set, ast.DictComp, ast.ListComp, ast.SetComp)):
+        return True
+    return isinstance(v, ast.Call) and norm(v.func) in ("dict", "list", "set", "collections.defaultdict", "defaultdict", "collections.OrderedDict", "OrderedDict") and not v.args
+
+
+def shared_mutable_state(prog, modules=None):
+    """Containers that outlive a call -- class attributes and module-level names bound to a dict / list / set literal -- and every
+    place where a function writes into one of them (subscript store, `del`, augmented store, a mutating method), directly or through
+    a local alias (`limits = self._coord_limits; limits["upper"] = ...`).  What such a function returns then depends on the calls made
+    before it in the same process.  Returns [(FuncInfo, node, description)]."""
+    out = []
+    for mname, m in prog.modules.items():
+        if modules is not None and not mname.startswith(tuple(modules)):
+            continue
+        glob, attrs = {}, {}
+        for st in m.tree.body:
+            if isinstance(st, ast.Assign) and _mutable_literal(st.value):
+                for t in st.targets:
+                    if isinstance(t, ast.Name):
+                        glob[t.id] = f"module-level {t.id} = {norm(st.value)[:40]}"
+            if isinstance(st, ast.ClassDef):
+                for cs in st.body:
+                    if isinstance(cs, ast.Assign) and _mutable_literal(cs.value):
+                        for t in cs.targets:
+                            if isinstance(t, ast.Name):
+                                attrs[t.id] = f"class attribute {st.name}.{t.id} = {norm(cs.value)[:40]}"
+        if not glob and not attrs:
+            continue
+        for fi in prog.functions.values():
+            if fi.mod != mname:
+                continue
+            assigned = {}
+            for n in own_nodes(fi.node):
+                if isinstance(n, ast.Assign) and len(n.targets) == 1 and isinstance(n.targets[0], ast.Name):
+                    assigned.setdefault(n.targets[0].id, []).append(n.value)
+            params = {a.arg for a in fi.node.args.posonlyargs + fi.node.args.args + fi.node.args.kwonlyargs}
+            declared_global = {x for n in own_nodes(fi.node) if isinstance(n, ast.Global) for x in n.names}
+
+            def shared_of(e, depth=0):
+                """description of the shared container an expression denotes, or None"""
+                if isinstance(e, ast.Name):
+                    if e.id in glob and e.id not in params and (e.id not in assigned or e.id in declared_global):
+                        return glob[e.id]
+                    if e.id in assigned and depth < 3:
+                        ds = [shared_of(v, depth + 1) for v in assigned[e.id]]
+                        if ds and all(ds):
+                            return ds[0] + f" (through the local name {e.id})"
+                    return None
+                if isinstance(e, ast.Attribute) and e.attr in attrs and isinstance(e.value, ast.Name):
+                    # self.X / cls.X / ClassName.X: the class-level object unless the instance rebinds it (no instance store of X anywhere in the module)
+                    rebinds = any(isinstance(t, ast.Attribute) and t.attr == e.attr for n in ast.walk(m.tree) if isinstance(n, ast.Assign) for t in n.targets)
+                    if not rebinds:
+                        return attrs[e.attr]
+                return None
+            for n in own_nodes(fi.node):
+                tgt = None
+                if isinstance(n, (ast.Assign, ast.AugAssign, ast.Delete)):
+                    for t in (n.targets if isinstance(n, (ast.Assign, ast.Delete)) else [n.target]):
+                        if isinstance(t, ast.Subscript):
+                            d = shared_of(t.value)
+                            if d:
+                                out.append((fi, n, f"{d}: `{norm(t)[:50]}` is written inside {fi.qn}"))
+                elif isinstance(n, ast.Call) and isinstance(n.func, ast.Attribute) and n.func.attr in MUTATING_METHODS:
+                    d = shared_of(n.func.value)
+                    if d:
+                        out.append((fi, n, f"{d}: `{norm(n)[:50]}` mutates it inside {fi.qn}"))
+    return out
